@@ -1949,6 +1949,9 @@ TARGETS2 = {
         ("harness/vw_ext.c", "vw_extPutFixedQuick", "extPutFixedQuick"),
         ("harness/vw_ext.c", "vw_extGetQuick", "extGetQuick"),
     ],
+    "CDictH": [
+        ("varintDict.c", "size_mul_overflow", "dictMulOverflow"),
+    ],
     "CElias": [
         ("varintElias.c", "floorLog2", "eliasFloorLog2"),
         ("varintElias.c", "varintEliasGammaBits", "eliasGammaBits"),
